@@ -200,6 +200,61 @@ async def listen_phase(impl, app, calls):
                         delivered = None
                 out.append({'user': user, 'level': LEVEL[user], 'timeout': timeout, 'triggered': triggered,
                             'delivered': delivered, 'status': resp.code})
+
+        # hand-over of a session id: the admin listens on it and is answered (disconnects); an admin-only event and a view-only
+        # one are then queued for that session; a caller of another level polls with the SAME Session-Id: what was queued on
+        # behalf of the more privileged caller must not reach it
+        async def poll(user, sid, case):
+            return await client.fetch(
+                HTTPRequest('http://127.0.0.1:%d/api/listen' % port, method='GET',
+                            headers={'Authorization': tok[user], 'Session-Id': sid, 'X-Case': case}, request_timeout=20),
+                raise_error=False)
+
+        async def settle(task, sid):
+            core_sessions.update()
+            try:
+                await asyncio.wait_for(asyncio.shield(task), 0.5)
+            except asyncio.TimeoutError:
+                sess = core_sessions._sessions_by_id.get(sid)
+                if sess is not None:
+                    sess.respond()
+            return await task
+
+        for first in ('admin', 'normal'):
+            for user in ('viewonly', 'normal', 'admin'):
+                k += 1
+                sid = 'c09handover%d' % k
+                t1 = asyncio.ensure_future(poll(first, sid, sid + 'a'))
+                for _ in range(200):
+                    sess = core_sessions._sessions_by_id.get(sid)
+                    if t1.done() or (sess is not None and sess.future is not None):
+                        break
+                    await asyncio.sleep(0.005)
+                await core_events.trigger_full_update()
+                r1 = await settle(t1, sid)                       # the first listener is answered and gone
+                triggered = []
+                r = await client.fetch(HTTPRequest(
+                    'http://127.0.0.1:%d/api/device' % port, method='PATCH', body=json.dumps({'display_name': 'c09-h%d' % k}),
+                    headers={'Authorization': tok['admin'], 'Content-Type': 'application/json', 'X-Case': sid + 'p'}),
+                    raise_error=False)
+                if r.code == 204:
+                    triggered.append('device-update')
+                await core_events.trigger_full_update()
+                triggered.append('full-update')
+                # only what the session of the FIRST listener's level was queued is there to be handed over
+                queued = [t for t in triggered if not (t == 'device-update' and LEVEL[first] < 30)]
+                t2 = asyncio.ensure_future(poll(user, sid, sid + 'b'))
+                resp = await settle(t2, sid)
+                delivered = None
+                if resp.code == 200:
+                    try:
+                        delivered = [e.get('type') for e in json.loads(resp.body)]
+                    except Exception:
+                        delivered = None
+                out.append({'scenario': 'same Session-Id: %s listened (answered %s) and left; %s queued for the session; then '
+                                        'this caller polls with that Session-Id' % (first, r1.code, queued),
+                            'user': user, 'level': LEVEL[user], 'timeout': None, 'triggered': queued,
+                            'delivered': delivered, 'status': resp.code})
     finally:
         client.close()
         srv.stop()
